@@ -240,7 +240,7 @@ func (p *provider) Close() error {
 	// Dispose in reverse order of creation
 	for i := len(disposables) - 1; i >= 0; i-- {
 		if disposables[i] != nil {
-			if err := disposables[i].Close(); err != nil {
+			if err := closeDisposable(disposables[i]); err != nil {
 				errors = append(errors, fmt.Errorf("singleton disposable %d: %w", i, err))
 			}
 		}
